@@ -73,8 +73,10 @@ def simple_valid_values(st):
         if ln is not None:
             return ["é" * ln if ln else "", "x" * ln]
         out = []
-        for n in {mn, (mx if mx is not None else mn + 3)}:
+        hi = mx if mx is not None else mn + 3
+        for n in {mn, hi, max(mn, min(hi, 2))}:
             out.append(("ab漢c<&>xyz" * 3)[:n] if n else "")
+            out.append(("k漢w" * 9)[:n] if n else "")
         return sorted(set(out))
     return [lex for _, lex in builtin_values(ub)][:2]
 
@@ -107,18 +109,27 @@ def simple_violating_values(st):
 
 
 class Sampler:
-    def __init__(self, r):
+    def __init__(self, r, plain_text=False):
         self.r = r
+        # plain_text: no empty strings and no markup characters in text values (used where no reference-struct exclusion is
+        # available and yaserde's known limits on empty text / struct-typed attributes would only add noise)
+        self.plain_text = plain_text
+
+    def _plain(self, vals):
+        if not self.plain_text:
+            return vals
+        good = [v for v in vals if (v if isinstance(v, str) else v[1]) != "" and not any(c in (v if isinstance(v, str) else v[1]) for c in "<>&\"'")]
+        return good or vals
 
     def leaf(self, m, mode):
         """One item value for flat member m."""
         kind, t = member_target(m)
         if kind == "builtin":
-            vals = builtin_values(t)
+            vals = self._plain(builtin_values(t))
             pv, lex = vals[0] if mode == "lo" else (vals[1 % len(vals)] if mode == "hi" else self.r.choice(vals))
             return ("b", t, pv, lex)
         if t.kind == "simple":
-            vals = simple_valid_values(t)
+            vals = self._plain(simple_valid_values(t))
             lex = vals[0] if mode == "lo" else (vals[-1] if mode == "hi" else self.r.choice(vals))
             return ("s", t, lex)
         return self.complex(t, mode)
